@@ -114,11 +114,10 @@ def realise(rng, m, sites, far, R, f, states, inner):
     return np.mod(pos, 1), int(inn.sum()), int(out.sum())
 
 
-def build(rng, states_true, inner_true):
+def build(rng, states_true, inner_true, f=0.5):
     from pymatgen.core import Structure
 
     kind, rot, m, sites, far, R = fixed_geometry(rng)
-    f = 0.5
     pos, _, _ = realise(rng, m, sites, far, R, f, states_true, inner_true)
     N = states_true.shape[1]
     traj = gen.make_trajectory(m, gen.species_objects(['Li'] * N + ['S']), np.concatenate([pos, np.full((len(pos), 1, 3), 0.123)], axis=1))
